@@ -503,6 +503,17 @@ func queryProperty(t *rapid.T) {
 	if d := queryDiff(q1, q2, g.startClock, g.endClock); d != "" {
 		t.Fatalf("sql.Parse is not deterministic: %s\nsql: %s", d, text)
 	}
+	// for determinism even nil-vs-empty matters: strict deep equality, clock derived bounds aside
+	c1, c2 := *q1, *q2
+	if g.startClock {
+		c1.TimeRange.Start, c2.TimeRange.Start = 0, 0
+	}
+	if g.endClock {
+		c1.TimeRange.End, c2.TimeRange.End = 0, 0
+	}
+	if !reflect.DeepEqual(&c1, &c2) {
+		t.Fatalf("sql.Parse is not deterministic: statements are not deeply equal\nfirst:  %+v\nsecond: %+v\nsql: %s", c1, c2, text)
+	}
 	checkQueryWire(t, "parsed statement", q1)
 
 	// the root plans before it sends: run the production planner step on the parsed statement
@@ -548,6 +559,11 @@ func queryProperty(t *rapid.T) {
 
 func TestParsedQuerySurvivesWire(t *testing.T) {
 	defer queryCounters.note("TestParsedQuerySurvivesWire")
+	for _, sig := range []string{sigNilOperand, sigInfNumber, sigDurationOverflow} {
+		if ev.Known(sig) {
+			ev.Note("excluded_known/"+sig, "shape left out of the SQL generator while the finding is listed in known_findings.json")
+		}
+	}
 	rapid.Check(t, queryProperty)
 	checkAcceptance(t, &queryCounters)
 }
@@ -590,6 +606,9 @@ func metaProperty(t *rapid.T) {
 	}
 	if d := metaDiff(m1, m2); d != "" {
 		t.Fatalf("sql.Parse is not deterministic: %s\nsql: %s", d, text)
+	}
+	if !reflect.DeepEqual(m1, m2) {
+		t.Fatalf("sql.Parse is not deterministic: statements are not deeply equal\nfirst:  %+v\nsecond: %+v\nsql: %s", m1, m2, text)
 	}
 	checkMetaWire(t, "parsed metadata statement", m1)
 	depth := exprDepth(m1.Condition)
